@@ -37,6 +37,66 @@ pub fn lattice() -> Vec<[u8; 24]> {
   v
 }
 
+/// every combination of boundary values per 64-bit LIMB (low, middle) with top limb 0, 1, 2: the
+/// shapes a limb-wise comparison, carry or borrow can get wrong
+pub fn limb_lattice() -> Vec<[u8; 24]> {
+  let lv: [u64; 8] = [0, 1, 5, 12450, 12451, 12452, 1u64 << 63, u64::MAX];
+  let mut v = Vec::new();
+  for top in 0..3u8 {
+    for &l1 in &lv {
+      for &l0 in &lv {
+        v.push(le24((l0 as u128) | ((l1 as u128) << 64), top));
+      }
+    }
+  }
+  v
+}
+
+/// elements whose INTERNAL (Montgomery) representation x*2^192 mod p has the limb pattern `m`
+pub fn mont_lattice() -> Vec<[u8; 24]> {
+  use num_bigint::BigUint;
+  use num_traits::One;
+  let p = (BigUint::one() << 128) + BigUint::from(12451u32);
+  let r192: BigUint = BigUint::one() << 192;
+  let rinv = r192.modpow(&(&p - BigUint::from(2u32)), &p);
+  let mut v = Vec::new();
+  for m in limb_lattice() {
+    let mi = BigUint::from_bytes_le(&m);
+    if mi < p {
+      let x = (mi * &rinv) % &p;
+      let mut b = x.to_bytes_le();
+      b.resize(24, 0);
+      let mut a = [0u8; 24];
+      a.copy_from_slice(&b);
+      v.push(a);
+    }
+  }
+  v
+}
+
+/// two operations in a row on the REAL values (the intermediate is not re-decoded): the request
+/// names the canonical encoding of the intermediate, the answer comes from the value itself
+fn chain(op1: &str, a: &[u8; 24], b: &[u8; 24], c: &[u8; 24]) {
+  let (x, y, z) = (fp_of(a).unwrap(), fp_of(b).unwrap(), fp_of(c).unwrap());
+  let s = match op1 {
+    "add" => x + y,
+    "double" => x.double(),
+    "mul" => x * y,
+    "sub" => x - y,
+    _ => unreachable!(),
+  };
+  let mut sr = [0u8; 24];
+  sr.copy_from_slice(&repr(&s));
+  emit(&format!("fp.un neg {}", hex(&sr)), &format!("ok {}", hex(&repr(&(-s)))));
+  emit(&format!("fp.bin sub {} {}", hex(c), hex(&sr)), &format!("ok {}", hex(&repr(&(z - s)))));
+  emit(&format!("fp.bin sub {} {}", hex(&sr), hex(c)), &format!("ok {}", hex(&repr(&(s - z)))));
+  emit(&format!("fp.bin add {} {}", hex(&sr), hex(c)), &format!("ok {}", hex(&repr(&(s + z)))));
+  emit(&format!("fp.un double {}", hex(&sr)), &format!("ok {}", hex(&repr(&s.double()))));
+  emit(&format!("fp.bin mul {} {}", hex(&sr), hex(c)), &format!("ok {}", hex(&repr(&(s * z)))));
+  emit(&format!("fp.un invert {}", hex(&sr)), &match Option::<Fp>::from(s.invert()) { Some(r) => format!("ok {}", hex(&repr(&r))), None => "err".into() });
+  stat("fp.chains");
+}
+
 fn rand_elem(g: &mut Sm) -> [u8; 24] {
   loop {
     let lo = (g.next() as u128) | ((g.next() as u128) << 64);
@@ -143,6 +203,23 @@ pub fn run(tier: &str, seed: u64) {
     un("sqrt", &sb);
     stat("fp.uniform_pairs");
   }
+  // operands on the Montgomery-domain limb lattice, two operations in a row (an intermediate that
+  // is left unreduced or mis-carried only shows in what is computed FROM it)
+  let ml = mont_lattice();
+  stat_n("fp.mont_lattice_points", ml.len() as u64);
+  for a in &ml {
+    for b in &ml {
+      if !g.chance(1, if quick(tier) { 40 } else { 3 }) {
+        continue;
+      }
+      let c = if g.chance(1, 2) { *g.pick(&ml) } else { *g.pick(&lat) };
+      for op in ["add", "mul", "sub"] {
+        bin(op, a, b);
+        chain(op, a, b, &c);
+      }
+      chain("double", a, b, &c);
+    }
+  }
   let m = if quick(tier) { 25 } else { 600 };
   for i in 0..m {
     let a = if i % 3 == 0 { *g.pick(&lat) } else { rand_elem(&mut g) };
@@ -173,6 +250,8 @@ pub fn run(tier: &str, seed: u64) {
   dec.push(hi);
   dec.push(le24(0, 2));
   dec.push(le24(u128::MAX, 1));
+  dec.extend(limb_lattice());
+  stat_n("fp.decode.limb_lattice", limb_lattice().len() as u64);
   for _ in 0..(if quick(tier) { 40 } else { 2000 }) {
     let mut b = [0u8; 24];
     b.copy_from_slice(&g.bytes(24));
@@ -209,10 +288,16 @@ pub fn run(tier: &str, seed: u64) {
   for i in 0..(if quick(tier) { 40 } else { 1500 }) {
     let mut script = Vec::new();
     let rejects = if i % 2 == 0 { 0 } else { g.below(4) };
-    for _ in 0..rejects {
+    for r in 0..rejects {
       // candidate >= p after masking: top bit set, middle limb nonzero or low limb >= 12451
-      script.push(g.next() | 12451);
-      script.push(g.next() | 1);
+      if r % 2 == 0 {
+        script.push(g.next() | 12451);
+        script.push(g.next() | 1);
+      } else {
+        // ... low limb BELOW 12451 and only the middle limb making it too large
+        script.push(g.below(12451));
+        script.push(*g.pick(&[1u64, 1 << 63, u64::MAX]));
+      }
       script.push(g.next() | 1);
     }
     match i % 6 {
